@@ -9,3 +9,4 @@ open SSVerif.HypBuf
 #print axioms hypBuf_replicate
 #print axioms fill_prefix
 #print axioms C01_hyp_block_start_written_with_last_word_only
+#print axioms visitWords_eq
